@@ -202,10 +202,41 @@ func (m *Model) mustRun(x int, leaves []u.PLeaf, skip DecoSet, done func(string)
 // (No), or neither (Unknown: cycles, decorated-but-unprovided keys, optional
 // corner cases). done reports functions already built.
 func (m *Model) Avail(x int, leaves []u.PLeaf, skip DecoSet, done func(string) bool) Tri {
-	return m.avail(x, leaves, skip, done, map[string]bool{})
+	return m.avail(x, leaves, skip, done, map[string]bool{}, true)
 }
 
-func (m *Model) avail(x int, leaves []u.PLeaf, skip DecoSet, done func(string) bool, stack map[string]bool) Tri {
+// unprovided answers for a required single key that no constructor visible
+// from x provides but some visible decorator produces (§3.6-3). dig serves
+// such a key only from a decorated value that already exists, so:
+//   - a direct parameter of the invoked function (top: checked before anything
+//     runs) is definitely missing unless one of those decorators completed
+//     earlier;
+//   - at any depth it is definitely missing if none of the decorators can ever
+//     complete (each needs something unavailable — typically the key itself);
+//   - otherwise the answer is left open.
+func (m *Model) unprovided(x int, k u.Key, skip DecoSet, done func(string) bool, stack map[string]bool, top bool) Tri {
+	anyDone, anyCan := false, false
+	for _, d := range m.DecoChain(x, k) {
+		if skip[d] {
+			continue
+		}
+		if done(d.Inst) {
+			anyDone = true
+		}
+		if m.availFn(Fn{D: d}, skip.with(d), done, stack) != No {
+			anyCan = true
+		}
+	}
+	if anyDone {
+		return Unknown
+	}
+	if top || !anyCan {
+		return No
+	}
+	return Unknown
+}
+
+func (m *Model) avail(x int, leaves []u.PLeaf, skip DecoSet, done func(string) bool, stack map[string]bool, top bool) Tri {
 	res := Yes
 	and := func(t Tri) {
 		switch {
@@ -223,18 +254,21 @@ func (m *Model) avail(x int, leaves []u.PLeaf, skip DecoSet, done func(string) b
 			sup := m.Resolve(x, l.Key, skip)
 			if l.Optional {
 				// never a reason to fail for missing; whether it is fully
-				// available only matters to the optional-zero rule
+				// available only matters to the optional-zero rule. An
+				// optional key decorated by a decorator whose dependencies
+				// are not fully available is outside the claim (quantifier).
+				if sup.D != nil && m.availFn(Fn{D: sup.D}, skip.with(sup.D), done, stack) != Yes {
+					and(Unknown)
+				}
 				continue
 			}
 			switch {
-			case sup.None():
-				// no constructor visible: missing — unless some decorator
-				// visible from here produces the key (§3.6-3)
-				if len(m.DecoChain(x, l.Key)) > 0 {
-					and(Unknown)
-				} else {
-					and(No)
-				}
+			case len(m.Prov(x, l.Key)) == 0 && len(m.DecoChain(x, l.Key)) == 0:
+				and(No) // no constructor visible, nothing decorates the key
+			case len(m.Prov(x, l.Key)) == 0:
+				// no constructor visible, but a visible decorator produces the
+				// key (§3.6-3)
+				and(m.unprovided(x, l.Key, skip, done, stack, top))
 			case sup.D != nil:
 				and(m.availFn(Fn{D: sup.D}, skip.with(sup.D), done, stack))
 				// a decorator consuming its own key needs the provider too:
@@ -270,7 +304,7 @@ func (m *Model) availFn(f Fn, skip DecoSet, done func(string) bool, stack map[st
 	}
 	stack[k] = true
 	defer delete(stack, k)
-	return m.avail(f.Scope(), f.Leaves(), skip, done, stack)
+	return m.avail(f.Scope(), f.Leaves(), skip, done, stack, false)
 }
 
 // OptionalZero answers, for an optional single leaf resolved at x, whether it
